@@ -29,6 +29,7 @@ import (
 	pb "github.com/jamf/regatta/regattapb"
 	_ "github.com/jamf/regatta/regattaserver/encoding/proto" // the codec regatta's own clients use
 	"google.golang.org/grpc/codes"
+	"google.golang.org/grpc/status"
 
 	"verifharness/internal/ev"
 	"verifharness/internal/model"
@@ -58,7 +59,12 @@ type shared struct {
 	reported map[string]int
 	sampled  map[string]int
 	codes    map[string]map[string]int // rule -> observed status -> count
+	disabled map[string]bool           // request classes that crashed a server (not sent again)
+	picked   map[string][]any          // curated samples by class
 }
+
+func (s *shared) isDisabled(k string) bool { s.mu.Lock(); defer s.mu.Unlock(); return s.disabled[k] }
+func (s *shared) disable(k string)         { s.mu.Lock(); s.disabled[k] = true; s.mu.Unlock() }
 
 func (s *shared) violation(sig, what string, w witness) {
 	s.mu.Lock()
@@ -70,14 +76,38 @@ func (s *shared) violation(sig, what string, w witness) {
 	}
 }
 
+// sample keeps the first two samples of every class; emit() hands a mixed selection to the evidence.
 func (s *shared) sample(class string, v any) {
 	s.mu.Lock()
-	n := s.sampled[class]
-	s.sampled[class]++
-	s.mu.Unlock()
-	if n == 0 {
-		s.r.Sample(v)
+	if len(s.picked[class]) < 2 {
+		s.picked[class] = append(s.picked[class], v)
 	}
+	s.mu.Unlock()
+}
+
+func (s *shared) emit() {
+	s.mu.Lock()
+	defer s.mu.Unlock()
+	var classes []string
+	for c := range s.picked {
+		classes = append(classes, c)
+	}
+	sort.Strings(classes)
+	// the six "headline" samples: one per group, then everything under more_samples
+	groups := []string{"nested:", "raw-decoded", "rejected:", "accepted:", "follower:", "effect:"}
+	for _, g := range groups {
+		for _, c := range classes {
+			if strings.HasPrefix(c, g) {
+				s.r.Sample(s.picked[c][0])
+				break
+			}
+		}
+	}
+	more := map[string]any{}
+	for _, c := range classes {
+		more[c] = s.picked[c][0]
+	}
+	s.r.Extra("more_samples", more)
 }
 
 func (s *shared) observed(rule string, code codes.Code) {
@@ -139,7 +169,7 @@ func main() {
 	}()
 	defer cleanup()
 
-	sh := &shared{r: r, reported: map[string]int{}, sampled: map[string]int{}, codes: map[string]map[string]int{}}
+	sh := &shared{r: r, reported: map[string]int{}, sampled: map[string]int{}, codes: map[string]map[string]int{}, disabled: map[string]bool{}, picked: map[string][]any{}}
 	base := scratchDir()
 
 	if r.Replay != "" {
@@ -172,6 +202,7 @@ func main() {
 	}
 	wg.Wait()
 
+	sh.emit()
 	sh.mu.Lock()
 	r.Extra("violation_occurrences", sh.reported)
 	r.Extra("observed_status_by_rule", sh.codes)
@@ -205,12 +236,13 @@ type lane struct {
 	pending  int // accepted requests applied to the model since the last compared dump
 	recent   []string
 	logf     *os.File
-	disabled map[string]bool
 	restarts int
 	dead     bool // lane cannot continue
 
 	follWritesOff bool
 	follTimeouts  int
+	tSend, tDump, tWait, tStart time.Duration
+	began                       time.Time
 	crashReported map[*proc]bool
 }
 
@@ -220,7 +252,7 @@ func newLane(sh *shared, id int, bin, base string) *lane {
 	dir := filepath.Join(base, fmt.Sprintf("c16-lane%d", id))
 	_ = os.MkdirAll(dir, 0o755)
 	l := &lane{sh: sh, r: sh.r, id: id, seed: sh.r.Seed*1000 + int64(id), models: map[string]*model.Table{},
-		disabled: map[string]bool{}, crashReported: map[*proc]bool{}}
+		crashReported: map[*proc]bool{}}
 	l.cl = &cluster{bin: bin, dir: dir}
 	l.env = newGenEnv(id, id%2 == 0, sh.r.Pick(6, 40))
 	f, err := os.Create(filepath.Join(dir, "requests.log"))
@@ -233,6 +265,8 @@ func newLane(sh *shared, id int, bin, base string) *lane {
 func (l *lane) hasFollower() bool { return l.env.hasFoll && l.cl.follower != nil }
 
 func (l *lane) up() error {
+	t0 := time.Now()
+	defer func() { l.tStart += time.Since(t0) }()
 	if err := l.cl.startLeader(); err != nil {
 		return err
 	}
@@ -288,6 +322,7 @@ func (l *lane) waitFollower() {
 }
 
 func (l *lane) run(cases int, upto int) {
+	l.began = time.Now()
 	defer func() {
 		if l.logf != nil {
 			_ = l.logf.Close()
@@ -312,7 +347,7 @@ func (l *lane) run(cases int, upto int) {
 		} else {
 			q = l.draw(n)
 		}
-		if l.disabled[classKey(q)] {
+		if l.sh.isDisabled(classKey(q)) {
 			l.r.Count("skipped_after_crash_finding", 1)
 			continue
 		}
@@ -339,7 +374,7 @@ func (l *lane) draw(n int) *request {
 	methods := []string{mRange, mIterate, mPut, mPut, mDelete, mTxn, mTxn, mTxn}
 	switch {
 	case x < 8:
-		return l.env.tables(r, n, follower, !l.disabled["hostile"])
+		return l.env.tables(r, n, follower, true)
 	case x < 8+rawShare:
 		// raw mutant of a typed request (valid or singly invalid)
 		var base *request
@@ -623,7 +658,9 @@ func (l *lane) exec(q *request) {
 	l.logRequest(q, exp)
 	defer l.remember(q)
 
+	t0 := time.Now()
 	out := l.cli.send(q)
+	l.tSend += time.Since(t0)
 	if !l.alive() {
 		l.crashed(q, exp, out)
 		return
@@ -701,8 +738,10 @@ func (l *lane) exec(q *request) {
 	default:
 		l.r.Count("typed_invalid", 1)
 		l.r.Distinct("rules_exercised", exp.Rule)
-		l.sh.observed(exp.Rule, out.Code)
-		if len(exp.All) == 1 && strings.HasPrefix(exp.Rule, "txn-") {
+		if len(exp.All) == 1 {
+			l.sh.observed(exp.Rule, out.Code)
+		}
+		if len(exp.All) == 1 && isNestedRule(exp.Rule) {
 			b, _ := q.Msg.MarshalVT()
 			l.r.Nontrivial("nested|" + string(b))
 			l.sh.sample("nested:"+exp.Rule, map[string]any{"nested_violation": exp.Rule, "where": q.Where, "target": l.target(q), "request": trunc(render(q.Msg), 400), "expected": exp.String(), "status": out.Code.String()})
@@ -751,12 +790,21 @@ func (l *lane) exec(q *request) {
 			l.sh.violation(sig, fmt.Sprintf("%s %s was refused (%s) but the table dumps changed: %s", l.target(q), q.Method, out.Code, diff), l.witness(q, exp, observed, diff))
 			l.adopt(d)
 		}
-		if exp.Class != expOK || true {
-			l.sh.sample("rejected:"+q.Method, map[string]any{"rejected": q.Method, "kind": q.Kind, "request": trunc(render(q.Msg), 200), "status": out.Code.String(), "dump_unchanged": true})
+		cls := "rejected:" + q.Method
+		if q.Follower {
+			cls = "follower:rejected:" + q.Method
 		}
+		l.sh.sample(cls, map[string]any{"rejected": q.Method, "target": l.target(q), "kind": q.Kind, "request": trunc(render(q.Msg), 200), "expected": exp.String(), "status": out.Code.String(), "dumps_unchanged": true})
 		return
 	}
 	l.r.Count("requests_accepted", 1)
+	if q.Method == mCreate {
+		// the table's Raft group starts asynchronously: wait until it serves linearizable reads
+		// (a crash caused by the creation surfaces here and is attributed to it)
+		if !l.waitUsable(q) {
+			return
+		}
+	}
 	if exp.Class == expOK && !q.IsRaw {
 		l.apply(q)
 		d, err := l.dump()
@@ -769,9 +817,11 @@ func (l *lane) exec(q *request) {
 			l.sh.violation(sig, fmt.Sprintf("after the accepted %s %s the dumps differ from the reference model: %s", l.target(q), q.Method, diff), l.witness(q, exp, observed, diff))
 			l.adopt(d)
 		}
-		if q.Method == mCreate {
-			l.waitUsable(q)
+		cls := "accepted:" + q.Method
+		if q.Follower {
+			cls = "follower:accepted:" + q.Method
 		}
+		l.sh.sample(cls, map[string]any{"accepted": q.Method, "target": l.target(q), "request": trunc(render(q.Msg), 200), "dumps_equal_model": true})
 		l.tidy(d)
 		return
 	}
@@ -790,13 +840,16 @@ func (l *lane) exec(q *request) {
 	}
 	l.adopt(d)
 	if q.Method == mCreate {
-		l.waitUsable(q)
 		// hostile names that were accepted: drop the table again to keep the world small
 		if m, ok := q.Msg.(*pb.CreateTableRequest); ok && m != nil && !plainName(m.Name) && l.tableExists(m.Name) {
 			l.exec(&request{N: q.N, Method: mDropTable, Kind: "cleanup", Msg: &pb.DeleteTableRequest{Name: m.Name}})
 		}
 	}
 	l.tidy(d)
+}
+
+func isNestedRule(rule string) bool {
+	return strings.HasPrefix(rule, "txn-nested-") || strings.HasPrefix(rule, "txn-compare-") || rule == "txn-empty-oneof"
 }
 
 func slugOf(q *request, exp expectation) string {
@@ -846,28 +899,41 @@ func nilIfEmpty(b []byte) []byte {
 	return b
 }
 
-// waitUsable waits until a freshly created table answers reads (its Raft group starts
-// asynchronously); a crash caused by the creation surfaces here and is attributed to it.
-func (l *lane) waitUsable(q *request) {
-	m, ok := q.Msg.(*pb.CreateTableRequest)
-	if !ok || m == nil {
-		return
+// waitUsable waits until a freshly created table answers linearizable reads. It returns false
+// when the lane cannot go on with this request (server died: reported; or watchdog).
+func (l *lane) waitUsable(q *request) bool {
+	var name string
+	switch m := q.Msg.(type) {
+	case *pb.CreateTableRequest:
+		name = m.Name
+	default:
+		return true // raw mutant that does not decode: nothing was created under a known name
 	}
-	deadline := time.Now().Add(20 * time.Second)
+	t0 := time.Now()
+	defer func() { l.tWait += time.Since(t0) }()
+	deadline := time.Now().Add(30 * time.Second)
 	for time.Now().Before(deadline) {
 		if !l.alive() {
 			l.crashed(q, expectation{Class: expUnknown}, outcome{Code: codes.OK, Msg: "server died after answering OK"})
-			return
+			return false
 		}
-		if !l.tableExists(m.Name) {
-			return
+		ctx, cancel := context.WithTimeout(context.Background(), 3*time.Second)
+		_, err := l.cli.lkv.Range(ctx, &pb.RangeRequest{Table: []byte(name), Key: []byte{0}, RangeEnd: []byte{0}, Linearizable: true, CountOnly: true})
+		cancel()
+		if err == nil {
+			return true
 		}
-		if _, err := dumpTable(l.cli.lkv, m.Name); err == nil {
-			return
+		if c := status.Code(err); c == codes.NotFound || c == codes.InvalidArgument {
+			return true // the (mutated) request did not create a table of that name after all
 		}
-		time.Sleep(50 * time.Millisecond)
+		time.Sleep(20 * time.Millisecond)
 	}
-	l.r.Inconclusive(fmt.Sprintf("lane %d: table %q created but not readable within the watchdog", l.id, trunc(m.Name, 40)))
+	if !l.alive() {
+		l.crashed(q, expectation{Class: expUnknown}, outcome{Code: codes.OK, Msg: "server died after answering OK"})
+		return false
+	}
+	l.r.Inconclusive(fmt.Sprintf("lane %d: table %q created but not readable within the watchdog", l.id, trunc(name, 40)))
+	return true
 }
 
 // tidy removes records that an accepted-but-invalid request left behind and that would make
@@ -992,7 +1058,7 @@ func (l *lane) crashed(q *request, exp expectation, out outcome) {
 			l.witness(q, exp, fmt.Sprintf("%s %q; process: %s", out.Code, trunc(out.Msg, 120), p.exitString()), trunc(excerpt, 2500)))
 		l.noteRaces(p)
 	}
-	l.disabled[classKey(q)] = true
+	l.sh.disable(classKey(q))
 	l.restarts++
 	if l.restarts > 8 {
 		l.r.Note(fmt.Sprintf("lane %d: stopped after %d restarts", l.id, l.restarts))
@@ -1016,7 +1082,10 @@ func (l *lane) crashed(q *request, exp expectation, out outcome) {
 
 func (l *lane) noteRaces(p *proc) {
 	for _, rr := range p.raceReports() {
-		if rr.Regatta {
+		if rr.Coro {
+			l.r.Count("race_reports_coroutine_handoff_artefact", 1)
+			l.sh.sample("race-artefact", map[string]any{"race_report_not_judged": "util/iter.Pull switches coroutines without race annotations; both sides never run concurrently", "frames": rr.Frames})
+		} else if rr.Regatta {
 			l.r.Count("race_reports_regatta", 1)
 			l.sh.violation("data-race-"+trunc(rr.Key, 120), fmt.Sprintf("race detector report in the %s process with regatta frames %v", p.name, rr.Frames),
 				witness{Lane: l.id, Seed: l.r.Seed, Tier: l.r.Tier, Target: p.name, Method: "-", Request: "(whole run)", Observed: "WARNING: DATA RACE", Detail: rr.Text, N: 1 << 30})
@@ -1029,6 +1098,11 @@ func (l *lane) noteRaces(p *proc) {
 
 // finish stops the servers with SIGTERM and judges exit status and output.
 func (l *lane) finish() {
+	tf := time.Now()
+	defer func() {
+		fmt.Printf("lane %d: total %.1fs (start-up %.1fs, requests %.1fs, dumps %.1fs, table waits %.1fs, shutdown %.1fs), %d restarts\n", l.id, time.Since(l.began).Seconds(),
+			l.tStart.Seconds(), l.tSend.Seconds(), l.tDump.Seconds(), l.tWait.Seconds(), time.Since(tf).Seconds(), l.restarts)
+	}()
 	if l.cli != nil {
 		l.cli.close()
 	}
@@ -1069,6 +1143,8 @@ type world1 struct {
 }
 
 func (l *lane) dump() (world1, error) {
+	t0 := time.Now()
+	defer func() { l.tDump += time.Since(t0) }()
 	ctx, cancel := context.WithTimeout(context.Background(), 20*time.Second)
 	defer cancel()
 	lst, err := l.cli.ltab.List(ctx, &pb.ListTablesRequest{})
